@@ -46,7 +46,8 @@ LEAN_MODULES3 = ["KaVerif.Props.PipelineArr"]
 THEOREMS3 = {
     "C12": ["KaVerif.PIPE_comprehension", "KaVerif.PIPE_comprehension_rejects", "KaVerif.PIPE_comprehension_closed_form",
             "KaVerif.PIPE_comprehension_session", "KaVerif.PIPE_comprehension_arith",
-            "KaVerif.PIPE_median", "KaVerif.PIPE_median_exact", "KaVerif.PIPE_range_step_float"],
+            "KaVerif.PIPE_median", "KaVerif.PIPE_median_exact", "KaVerif.PIPE_range_step_float",
+            "KaVerif.PIPE_qty_aggregates"],
     "C14": ["KaVerif.PIPE_comprehension_scope", "KaVerif.PIPE_comprehension_session"],
 }
 RULE = ("whole programs (1-4 statements, depth <= 4) mixing arithmetic on ints / fractions / floats / scientific and based literals, "
